@@ -252,13 +252,36 @@ impl StartExtra for AdjacencyMap {
     /// (`filter_vertices`): a vertex set that is a contiguous run NOT starting
     /// at 0 — or, for via 6, every other vertex.
     fn start_extra(s: &Start) -> Option<(Self, Option<M>)> {
-        if s.via != 5 && s.via != 6 {
+        if s.via != 5 && s.via != 6 && s.via != 10 {
             return None;
         }
         let n = s.order.max(1);
         let mut g = AdjacencyMap::empty(n);
         for &(u, v) in &s.arcs {
             g.add_arc(u, v);
+        }
+        if s.via == 10 {
+            // via 10: filter_vertices with a stateful predicate (a budget of
+            // `true` answers).  Which vertices it selects is the predicate's
+            // business; the result must be a valid digraph inside the operand,
+            // and the history then continues from what is observed.
+            let budget = 1 + (s.seed as usize) % n;
+            let calls = std::cell::Cell::new(0_usize);
+            let f = g.filter_vertices(|_| {
+                calls.set(calls.get() + 1);
+                calls.get() <= budget
+            });
+            let vs: std::collections::BTreeSet<usize> = f.vertices().collect();
+            let mut m: M = Model { v: vs.clone(), a: std::collections::BTreeMap::new() };
+            for (u, v) in f.arcs() {
+                assert!(
+                    vs.contains(&u) && vs.contains(&v) && g.has_arc(u, v),
+                    "filter_vertices with a stateful predicate (first {budget} calls true) returned an invalid digraph: arc ({u}, {v}) with vertex set {vs:?}"
+                );
+                m.a.insert((u, v), 1);
+            }
+            assert!(vs.iter().all(|&v| v < n), "filter_vertices with a stateful predicate returned a vertex outside the operand: {vs:?}");
+            return Some((f, Some(m)));
         }
         let k = (s.seed as usize) % n;
         let keep = |u: usize| if s.via == 5 { u >= k } else { u % 2 == k % 2 };
@@ -721,7 +744,7 @@ pub fn case_from_raw(repr: u8, n: usize, via: u8, gen_kind: u8, seed: u64, raw_a
                     3 => 1,
                     4 => 2,
                     // AdjacencyMap: half of these start from a filter_vertices result
-                    5 if repr == 1 => 5 + (seed % 2) as u8,
+                    5 if repr == 1 => [5, 6, 10][(seed % 3) as usize],
                     // unweighted representations: the result of complement / converse / union
                     6 if repr < 4 && n <= 40 => 7 + (seed % 3) as u8,
                     5 | 6 => 3,
@@ -825,7 +848,7 @@ impl Prop for C01 {
     type Case = Case;
     const ID: &'static str = "C01";
     const NUM: u64 = 1;
-    const RULE: &'static str = "stateful / model-based: representation in {AdjacencyList, AdjacencyMap, AdjacencyMatrix, EdgeList, AdjacencyListWeighted<usize>, AdjacencyListWeighted<isize>}; start digraph from empty+adds, a conversion, From<rows|arcs>, a deterministic generator, a seeded random generator (AdjacencyMap) a filter_vertices result whose vertex set is a run not starting at 0 / every other vertex, or the result of complement / converse / union (order 1..24 quick / 1..70 thorough, orders 8, 9, 11, 16 over-represented for the bit matrix); then 0..40 (thorough 0..120) operations add_arc / add_arc_weighted / remove_arc / AdjacencyMatrix::toggle with vertex arguments in range (~70%), equal, = order, = order+1, far (1000, usize::MAX) and arbitrary weights; after every step order, vertices, arcs, weights, size, has_arc / arc_weight over all pairs of V + two ids outside V are compared with a BTreeSet model. About one random case in 25 has a large order (17..140, weighted towards 63..66, 96, 127..130, 140; at most 700 arcs). A low-rate 'huge' leg adds digraphs of 200..3100 vertices with O(n) arcs (paths, circuits, stars, wheels, trees, one row of exactly 255/256/257 out-neighbours, arcs in the last rows, complete below 300). At the end of a history arcs() and vertices() are driven through the consumption protocol of C02. Non-trivial = the history removes (or toggles off) a present arc after an add and contains a rejected call that is not the last step; distinct = distinct serialised case.";
+    const RULE: &'static str = "stateful / model-based: representation in {AdjacencyList, AdjacencyMap, AdjacencyMatrix, EdgeList, AdjacencyListWeighted<usize>, AdjacencyListWeighted<isize>}; start digraph from empty+adds, a conversion, From<rows|arcs>, a deterministic generator, a seeded random generator (AdjacencyMap) a filter_vertices result whose vertex set is a run not starting at 0 / every other vertex / whatever a stateful predicate selected, or the result of complement / converse / union (order 1..24 quick / 1..70 thorough, orders 8, 9, 11, 16 over-represented for the bit matrix); then 0..40 (thorough 0..120) operations add_arc / add_arc_weighted / remove_arc / AdjacencyMatrix::toggle with vertex arguments in range (~70%), equal, = order, = order+1, far (1000, usize::MAX) and arbitrary weights; after every step order, vertices, arcs, weights, size, has_arc / arc_weight over all pairs of V + two ids outside V are compared with a BTreeSet model. About one random case in 25 has a large order (17..140, weighted towards 63..66, 96, 127..130, 140; at most 700 arcs). A low-rate 'huge' leg adds digraphs of 200..3100 vertices with O(n) arcs (paths, circuits, stars, wheels, trees, one row of exactly 255/256/257 out-neighbours, arcs in the last rows, complete below 300). At the end of a history arcs() and vertices() are driven through the consumption protocol of C02. Non-trivial = the history removes (or toggles off) a present arc after an add and contains a rejected call that is not the last step; distinct = distinct serialised case.";
     const ASSUMPTIONS: &'static [&'static str] = &[
         "panic messages are not compared",
         "for AdjacencyMap nothing is asserted about how large an id may be (ids up to 2^20 are used)",
